@@ -67,6 +67,14 @@ func (c *Ctx) Violate(f Finding) {
 	}
 }
 
+// verifDir: where the framework lives (VERIF_DIR, default /verif)
+func verifDir() string {
+	if d := os.Getenv("VERIF_DIR"); d != "" {
+		return d
+	}
+	return "/verif"
+}
+
 func hashOf(v any) string {
 	b, _ := json.Marshal(v)
 	h := sha256.Sum256(b)
@@ -152,7 +160,7 @@ func main() {
 	prop := flag.String("prop", "", "property id")
 	tier := flag.String("tier", "quick", "quick|thorough")
 	seed := flag.Uint64("seed", 1, "seed")
-	driver := flag.String("driver", "/verif/lean/.lake/build/bin/psa-driver", "lean driver")
+	driver := flag.String("driver", verifDir()+"/lean/.lake/build/bin/psa-driver", "lean driver")
 	out := flag.String("out", "", "report file")
 	replay := flag.String("replay", "", "replay file")
 	flag.Parse()
